@@ -86,6 +86,174 @@ func TestC29(t *testing.T) {
 	t.Run("pipeline", testPipeline)
 }
 
+// direct: Calcium.Send (cluster/calcium/send.go), the non-chunked path
+func runDirect(r *vh.Run, w *cw.World, wids []string, kind string, sizes []int, targets []int, beh []behaviour, zeroPerm bool) bool {
+	const missing = "0000000000000000000000000000000000000000000000000000000000000000"
+	files := make([]types.LinuxFile, len(sizes))
+	fmap := map[string]types.LinuxFile{}
+	for i, n := range sizes {
+		content := make([]byte, n)
+		for k := range content {
+			content[k] = byte((k*11 + i) % 253)
+		}
+		f := types.LinuxFile{Content: content, Filename: fmt.Sprintf("/data/f%d", i), UID: 1001, GID: 1002 + i, Mode: 0o600}
+		if zeroPerm {
+			f.UID, f.GID, f.Mode = 0, 0, 0
+		}
+		files[i] = f
+		want := f
+		if zeroPerm {
+			want.Mode = 0o755 // SendOptions.Validate: default permission
+		}
+		fmap[f.Filename] = want
+	}
+	theHub.mu.Lock()
+	theHub.beh = map[string]behaviour{}
+	for i, b := range beh {
+		theHub.beh[wids[i]] = b
+	}
+	theHub.files, theHub.drecv = fmap, map[string]*received{}
+	theHub.mu.Unlock()
+	defer func() { theHub.mu.Lock(); theHub.files = nil; theHub.mu.Unlock() }()
+	ids := make([]string, len(targets))
+	for i, o := range targets {
+		if o < 0 {
+			ids[i] = missing
+		} else {
+			ids[i] = wids[o]
+		}
+	}
+	ord := map[string]int{}
+	for i, id := range wids {
+		ord[id] = i
+	}
+	fidx := map[string]int{}
+	for i, f := range files {
+		fidx[f.Filename] = i
+	}
+	ctx, cancel := context.WithCancel(w.Ctx)
+	defer cancel()
+	derr := "DOk"
+	type dm struct {
+		T, F int
+		E    string
+	}
+	var msgs []dm
+	finished := true
+	ch, err := w.C.Send(ctx, &types.SendOptions{IDs: ids, Files: files})
+	switch {
+	case errors.Is(err, types.ErrNoWorkloadIDs):
+		derr = "DNoIDs"
+	case errors.Is(err, types.ErrNoFilesToSend):
+		derr = "DNoFiles"
+	case err != nil:
+		derr = "DOther"
+	default:
+		deadline := time.After(5 * time.Second)
+	loop:
+		for {
+			select {
+			case m, ok := <-ch:
+				if !ok {
+					break loop
+				}
+				x := dm{T: -1, F: -1, E: "ENone"}
+				if o, ok := ord[m.ID]; ok {
+					x.T = o
+				}
+				if i, ok := fidx[m.Path]; ok {
+					x.F = i
+				}
+				switch {
+				case m.Error == nil:
+				case errors.Is(m.Error, errEngine):
+					x.E = "EEngine"
+				default:
+					x.E = "EOther"
+				}
+				msgs = append(msgs, x)
+			case <-deadline:
+				finished = false
+				go func() {
+					for range ch {
+					}
+				}()
+				break loop
+			}
+		}
+	}
+	sort.Slice(msgs, func(i, j int) bool {
+		if msgs[i].T != msgs[j].T {
+			return msgs[i].T < msgs[j].T
+		}
+		if msgs[i].F != msgs[j].F {
+			return msgs[i].F < msgs[j].F
+		}
+		return msgs[i].E < msgs[j].E
+	})
+	opt := func(v int) string {
+		if v < 0 {
+			return "None"
+		}
+		return fmt.Sprintf("(Some %d)", v)
+	}
+	ms := make([]string, len(msgs))
+	for i, m := range msgs {
+		ms[i] = fmt.Sprintf("(mkDMsg %s %s %s)", opt(m.T), opt(m.F), m.E)
+	}
+	theHub.mu.Lock()
+	rows := make([]string, len(wids))
+	for i, id := range wids {
+		cells := make([]string, len(files))
+		for k, f := range files {
+			rec := theHub.drecv[id+"|"+f.Filename]
+			if rec == nil {
+				cells[k] = "(mkDRecv 0 0 true true)"
+			} else {
+				cells[k] = fmt.Sprintf("(mkDRecv %d %d %s %s)", rec.calls, rec.n, vh.Bool(rec.prefix), vh.Bool(rec.metaOK))
+			}
+		}
+		rows[i] = vh.List(cells)
+	}
+	theHub.mu.Unlock()
+	if !finished || derr == "DOther" {
+		derr = "DOk"
+		ms = []string{"(mkDMsg None None ENone)", "(mkDMsg None None ENone)", "(mkDMsg None None ENone)", "(mkDMsg None None ENone)", "(mkDMsg None None ENone)", "(mkDMsg None None ENone)", "(mkDMsg None None ENone)", "(mkDMsg None None ENone)", "(mkDMsg None None ENone)", "(mkDMsg None None ENone)", "(mkDMsg None None ENone)", "(mkDMsg None None ENone)", "(mkDMsg None None ENone)"} // not representable: forces a mismatch and a violation
+	}
+	szs := make([]string, len(sizes))
+	for i, n := range sizes {
+		szs[i] = vh.Nat(n)
+	}
+	tg := make([]string, len(targets))
+	for i, o := range targets {
+		tg[i] = opt(o)
+	}
+	bs := make([]string, len(beh))
+	for i, b := range beh {
+		if b.Kind == "Abort" {
+			bs[i] = fmt.Sprintf("(GiveUp %d)", b.K)
+		} else {
+			bs[i] = b.Kind
+		}
+	}
+	term := fmt.Sprintf("(mkDCase %s %s %s %s %s %s)", vh.List(szs), vh.List(tg), vh.List(bs), derr, vh.List(ms), vh.List(rows))
+	desc := map[string]any{"kind": kind, "sizes": sizes, "targets": targets, "behaviours": beh, "zero_perm": zeroPerm,
+		"result": derr, "messages": msgs, "finished": finished}
+	r.Count("kind=" + kind)
+	r.Count("result=" + derr)
+	r.Count(fmt.Sprintf("files=%d", len(sizes)))
+	hasDup := false
+	seen := map[int]bool{}
+	for _, o := range targets {
+		if seen[o] {
+			hasDup = true
+		}
+		seen[o] = true
+	}
+	r.Add(term, desc, map[string]any{"stream": "direct", "kind": kind, "files": len(sizes), "targets": len(targets), "has_duplicate": hasDup}, len(sizes) > 0 && len(targets) > 0)
+	return finished
+}
+
 func testChunks(t *testing.T) {
 	r := vh.New(t, "C29", "chunks")
 	r.Coq("From Verif Require Import Xfer.Chunks.", "Chunks.case", "Chunks.agree", "Chunks.ok")
@@ -204,6 +372,9 @@ type xferHub struct {
 	content []byte
 	want    types.LinuxFile
 	recv    map[string]*received
+	// direct stream (Calcium.Send): several files, keyed by destination name
+	files map[string]types.LinuxFile
+	drecv map[string]*received // key: id + "|" + filename
 }
 
 var errEngine = errors.New("verif engine: copy failed")
@@ -220,7 +391,15 @@ func (e *xferEngine) VirtualizationCopyChunkTo(_ context.Context, id, target str
 	want := h.want
 	full := h.content
 	rec := h.recv[id]
-	if rec == nil {
+	if h.files != nil { // direct stream
+		want = h.files[target]
+		full = want.Content
+		rec = h.drecv[id+"|"+target]
+		if rec == nil {
+			rec = &received{}
+			h.drecv[id+"|"+target] = rec
+		}
+	} else if rec == nil {
 		rec = &received{}
 		h.recv[id] = rec
 	}
@@ -549,6 +728,76 @@ func testPipeline(t *testing.T) {
 			kind = "drain-then-error"
 		}
 		runCase(kind, pc)
+	}
+	// ---- stream "direct": Calcium.Send on the same world ----
+	{
+		rd := vh.New(t, "C29", "direct")
+		rd.Coq("From Verif Require Import Xfer.Pipeline Xfer.Direct.", "Direct.dcase", "Direct.dagree", "Direct.dok")
+		type dc struct {
+			sizes   []int
+			targets []int
+			beh     []behaviour
+			zero    bool
+		}
+		dcorpus := []dc{
+			{[]int{10}, []int{0}, all, false},
+			{[]int{0}, []int{0, 1}, all, false},            // empty file
+			{[]int{5, 0, 3000}, []int{2, 0}, all, false},   // several files
+			{[]int{100}, []int{0, -1}, all, false},         // missing target
+			{[]int{100, 7}, []int{-1, 1}, all, false},      // missing target, two files: one message for it
+			{[]int{64}, []int{1, 1}, all, false},           // duplicated target: sent twice, two results
+			{[]int{2048, 1}, []int{0, 1}, []behaviour{AB(0), D, D}, false},
+			{[]int{4000}, []int{0}, []behaviour{AB(100), D, D}, false},
+			{[]int{9}, []int{0, 2}, []behaviour{DE, D, D}, false},
+			{[]int{9}, []int{0}, all, true},                // uid = gid = mode = 0: default permission 0755
+			{[]int{}, []int{0}, all, false},                // no files
+			{[]int{4}, []int{}, all, false},                // no ids
+		}
+		for _, c := range dcorpus {
+			if !runDirect(rd, w, wids, "corpus", c.sizes, c.targets, c.beh, c.zero) {
+				fresh()
+			}
+		}
+		nd := rd.N(25, 300)
+		for i := 0; i < nd; i++ {
+			var c dc
+			nf := 1 + rng.Intn(3)
+			for k := 0; k < nf; k++ {
+				sz := rng.Intn(4500)
+				if rng.Intn(6) == 0 {
+					sz = 0
+				}
+				c.sizes = append(c.sizes, sz)
+			}
+			perm := rng.Perm(3)
+			for k := 0; k < 1+rng.Intn(3); k++ {
+				c.targets = append(c.targets, perm[k])
+			}
+			c.beh = []behaviour{D, D, D}
+			kind := "ok"
+			switch x := rng.Intn(100); {
+			case x < 50:
+			case x < 65:
+				c.targets[rng.Intn(len(c.targets))] = -1
+				kind = "missing"
+			case x < 75:
+				c.targets = append(c.targets, c.targets[rng.Intn(len(c.targets))])
+				kind = "duplicate"
+			case x < 90:
+				c.beh[c.targets[0]] = AB(rng.Intn(3000))
+				kind = "abort"
+			default:
+				c.beh[c.targets[0]] = DE
+				kind = "drain-then-error"
+			}
+			if c.targets[0] < 0 && kind == "abort" {
+				kind = "missing"
+			}
+			if !runDirect(rd, w, wids, kind, c.sizes, c.targets, c.beh, rng.Intn(8) == 0) {
+				fresh()
+			}
+		}
+		rd.Finish("Calcium.Send (non-chunked path) on the same world: corpus of 12 (empty file, several files, missing / duplicated target, aborting engine, default permission, no files, no ids), then random: 1-3 files of 0-4500 bytes to 1-3 of 3 workloads, 50% all drain, 15% one missing, 10% duplicated, 15% aborting engine, 10% drain then error; non-trivial = at least one file and one target")
 	}
 	r.Finish("corpus of 19 transfers (one byte, empty file, 1/3/14/40 chunks, missing target small+large, engine rejecting at once / after a partial read, buffer boundary 11/12 chunks, read-all-then-error, duplicated targets, engine returning success unread, no targets), then random transfers: size empty / below a chunk / 1-8 chunks / 9-38 chunks, 1-3 of 3 real workloads, 45% all engines drain, 15% one missing target, 10% duplicated target, 20% one engine aborts after k bytes, 10% drain then error; each through the real Calcium.SendLargeFile with a 5 s deadline; non-trivial = non-empty file and at least one target")
 }
